@@ -162,7 +162,7 @@ fn scenario(pr: &Params) -> Verdict {
     for p in 0..n {
         match (&ids[p], announced(pr.ids[p], p)) {
             (Some(id), Some(a)) if *id != a => v.violate("identity/not-the-announced-one", format!("{}: peer {} registered under {} instead of its announced identity", what, p, rc::show_frames(&[id.clone()]))),
-            (Some(id), None) if id.len() != 16 || ids.iter().enumerate().any(|(q, o)| q != p && o.as_ref() == Some(id)) => v.violate("identity/auto-not-unique", format!("{}: auto identity of peer {} is not a unique 16-byte value", what, p)),
+            (Some(id), None) if id.is_empty() || id.len() > 255 || ids.iter().enumerate().any(|(q, o)| q != p && o.as_ref() == Some(id)) => v.violate("identity/auto-not-unique", format!("{}: the identity assigned to peer {} ({} bytes) is empty, oversized or also carried by another connection", what, p, id.len())),
             _ => {}
         }
     }
@@ -300,6 +300,8 @@ fn cancel_scenario(id_kind: u8, how: u8, big: bool, policy: u8) -> Verdict {
     let sock = AnySocket::new(Ty::Router, None);
     let obs = std::rc::Rc::new(std::cell::RefCell::new(Vec::<String>::new()));
     let obs2 = obs.clone();
+    let assigned_a = std::rc::Rc::new(std::cell::RefCell::new(None::<Vec<u8>>));
+    let assigned_a2 = assigned_a.clone();
     let body = move |i: usize| -> Vec<Vec<u8>> {
         if big && i == 1 {
             vec![format!("m{}", i).into_bytes(), rc::pattern(200_000, 9, 0)]
@@ -312,6 +314,7 @@ fn cancel_scenario(id_kind: u8, how: u8, big: bool, policy: u8) -> Verdict {
         let Ok(ida) = e3::attach_raw(sock.backend(), a).await else { return };
         let Ok(idb) = e3::attach_raw(sock.backend(), b).await else { return };
         let (ida, idb) = (ida.to_vec(), idb.to_vec());
+        *assigned_a2.borrow_mut() = Some(ida.clone());
         let to = |id: &Vec<u8>, i: usize| -> zeromq::ZmqMessage {
             let mut m = vec![id.clone()];
             m.extend(body(i));
@@ -354,6 +357,14 @@ fn cancel_scenario(id_kind: u8, how: u8, big: bool, policy: u8) -> Verdict {
     for l in &o {
         world::log(l.clone());
     }
+    // (an identity assigned by the socket is replaced by a token before anything is hashed: it may differ from run to run)
+    let o: Vec<String> = match assigned_a.borrow().as_ref() {
+        Some(id) if ida.is_none() && !id.is_empty() => {
+            let r = rc::show_frames(&[id.clone()]);
+            o.iter().map(|l| l.replace(&r[1..r.len() - 1], "<auto-id>")).collect()
+        }
+        _ => o,
+    };
     if world::panics().is_empty() && !v.truncated {
         if !world::cond("done") {
             v.violate("abandoned-send/app-stuck", format!("{}: {:?}", what, o));
@@ -393,6 +404,80 @@ fn cancel_scenario(id_kind: u8, how: u8, big: bool, policy: u8) -> Verdict {
     e3::finish(v)
 }
 
+/// Assigned identities must be FRESH: not only different from each other but also from what connected peers have
+/// announced. An anonymous peer joins and gets identity X; a second peer announces a "neighbour" of X (X with its
+/// last byte, its last 4 bytes as a big-endian number, or its first byte stepped by `step`); a third, anonymous peer
+/// joins. All three connections must carry different identities, and a message addressed to the announced one must
+/// reach the peer that announced it. (With random identities a neighbour is as unlikely as any other value; with a
+/// counter it is the next value to be handed out.)
+fn guess_scenario(kind: u8, step: i8) -> Verdict {
+    world::reset(world::WorldCfg { nested_env: false, yields: false, select: false, policy: 0, coop: false });
+    let (a, b, c) = (e3::raw_conn("anon1"), e3::raw_conn("guesser"), e3::raw_conn("anon2"));
+    a.send(&rc::handshake("DEALER", None));
+    c.send(&rc::handshake("DEALER", None));
+    let sock = AnySocket::new(Ty::Router, None);
+    let viol = std::rc::Rc::new(std::cell::RefCell::new(Vec::<(String, String)>::new()));
+    let viol2 = viol.clone();
+    world::spawn_app("app", async move {
+        let mut sock = sock;
+        let Ok(x) = e3::attach_raw(sock.backend(), a).await else { return };
+        let x = x.to_vec();
+        if x.is_empty() {
+            return;
+        }
+        let mut g = x.clone();
+        let n = g.len();
+        match kind {
+            0 => g[n - 1] = g[n - 1].wrapping_add(step as u8),
+            1 if n >= 4 => {
+                let mut w = [0u8; 4];
+                w.copy_from_slice(&g[n - 4..]);
+                let v = u32::from_be_bytes(w).wrapping_add(step as i32 as u32);
+                g[n - 4..].copy_from_slice(&v.to_be_bytes());
+            }
+            1 => g[n - 1] = g[n - 1].wrapping_add(step as u8),
+            _ => g[0] = g[0].wrapping_add(step as u8),
+        }
+        b.send(&rc::handshake("DEALER", Some(&g)));
+        let Ok(gb) = e3::attach_raw(sock.backend(), b).await else { return };
+        let Ok(y) = e3::attach_raw(sock.backend(), c).await else { return };
+        let (gb, y) = (gb.to_vec(), y.to_vec());
+        if gb != g {
+            viol2.borrow_mut().push(("identity/not-the-announced-one".into(), format!("the peer that announced a {}-byte identity is registered under another one", g.len())));
+            return;
+        }
+        if y == g || y == x {
+            viol2.borrow_mut().push((
+                "identity/assigned-identity-not-fresh".into(),
+                format!("an anonymous peer was assigned identity X ({} bytes); a connected peer then announced a neighbour of X; the next anonymous peer was assigned {} - two live connections carry one identity", x.len(), if y == g { "exactly that announced identity" } else { "X again" }),
+            ));
+            return;
+        }
+        // routing still separates the three
+        let before: Vec<usize> = [a, b, c].iter().map(|k| world::tap_len(k.from_lib)).collect();
+        let r = sock.send(msg(&[g.clone(), b"for-the-guesser".to_vec()])).await;
+        let grew: Vec<usize> = [a, b, c].iter().zip(&before).map(|(k, p)| world::tap_len(k.from_lib) - p).collect();
+        if r.is_err() || grew[0] != 0 || grew[2] != 0 || grew[1] == 0 {
+            viol2.borrow_mut().push(("identity/send-to-announced-identity-misrouted".into(), format!("send addressed to the announced identity: {} ; wires grew by {:?} (anon1, announcer, anon2)", e3::ok_or_err(&r), grew)));
+        }
+        world::set_cond("done");
+        world::wait_cond("never").await;
+        drop(sock);
+    });
+    let end = world::run(e3::HORIZON);
+    let mut v = Verdict::default();
+    v.truncated = end != world::RunEnd::Quiescent;
+    let what = format!("ROUTER: anonymous peer, then a peer announcing a neighbour of the identity just assigned ({} stepped by {}), then another anonymous peer", ["last byte", "last four bytes as a big-endian number", "first byte"][kind as usize % 3], step);
+    for p in world::panics() {
+        v.violate("panic", format!("{}: {}", what, p));
+    }
+    for (c, m) in viol.borrow().iter() {
+        v.violate(c.clone(), format!("{}: {}", what, m));
+    }
+    v.outcome_hash = rc::fnv(format!("{}:{}:{}", kind, step, viol.borrow().len()).as_bytes());
+    e3::finish(v)
+}
+
 fn pj(p: &Params) -> Value {
     json!({"ids": p.ids, "msgs": p.msgs, "last_peer_leaves": p.last_peer_leaves, "policy": p.policy, "backpressure": p.backpressure, "peer_type": p.peer_type})
 }
@@ -414,6 +499,10 @@ pub fn run(tier: Tier, replay: Option<String>) -> i32 {
     if let Some(path) = replay {
         let v: Value = serde_json::from_str(&std::fs::read_to_string(&path).expect("read")).expect("json");
         return crate::replay::replay_e3(&v, |p| {
+            if p["scenario"] == "guess" {
+                let (k, st) = (p["kind"].as_u64()? as u8, p["step"].as_i64()? as i8);
+                return Some(std::sync::Arc::new(move || guess_scenario(k, st)) as zvcore::explore::Scenario);
+            }
             if p["scenario"] == "cancel" {
                 let (k, how, big, pol) = (p["id_kind"].as_u64()? as u8, p["how"].as_u64()? as u8, p["big"].as_bool()?, p["policy"].as_u64()? as u8);
                 return Some(std::sync::Arc::new(move || cancel_scenario(k, how, big, pol)) as zvcore::explore::Scenario);
@@ -485,12 +574,24 @@ pub fn run(tier: Tier, replay: Option<String>) -> i32 {
         }
     }
     e3::run_jobs_into(&mut ck, jobs, false);
+    // the freshness family runs on ONE worker thread, after everything else: if the library hands out identities from
+    // a process-wide counter, nothing else may advance it between "X is assigned" and "the next one is assigned"
+    let mut guess_jobs = Vec::new();
+    for kind in 0..3u8 {
+        for step in [1i8, 2, 3, 4, -1, 16] {
+            guess_jobs.push(e3::job(format!("C09/guess/kind{}/step{}", kind, step), json!({"scenario":"guess","kind":kind,"step":step}), 0, 4, move || guess_scenario(kind, step)));
+        }
+    }
+    let threads = ck.threads;
+    ck.threads = 1;
+    e3::run_jobs_into(&mut ck, guess_jobs, false);
+    ck.threads = threads;
     let ex = ck.coverage.get("e3_executions").and_then(|v| v.as_u64()).unwrap_or(0);
     ck.cov("states", ck.coverage.get("e3_distinct_outcomes").and_then(|v| v.as_u64()).unwrap_or(0).max(1));
     ck.cov("transitions", ex);
     ck.cov("traces_validated_against_impl", ex);
     ck.cov("exhaustive", ck.coverage.get("e3_scenarios_capped").and_then(|v| v.as_u64()) == Some(0));
-    ck.cov("explanation", "ROUTER socket with 1-3 raw peers whose identities are announced (1 byte / 255 bytes / each a proper prefix of the next / 255 bytes differing in the last byte only) or auto-assigned (no Identity property, or one of length 0), each sending 2 multipart messages (one starting with an empty frame); every schedule within the deviation bound over attach order, delivery order, yield points and deliveries landing inside pipe reads, from 3 default policies. Oracle: the first frame of every recv result is the identity returned by that connection's attach (the announced one when present, else a unique 16-byte value) and the remaining frames are the reference decode of what that peer wrote, per peer in order; then a send to each identity must appear, minus its first frame, on exactly that peer's wire and on no other; unknown identities must fail with no wire growing; a peer that has closed must not cause bytes on any other wire. Reconnect family: a peer with an announced identity leaves and a new connection announces the same identity while the application is not inside recv: the send for that identity must reach the new connection and nothing the stale one. Scale family (not exhaustive in n): 17 / 65 / 130 (thorough 257, 520) peers with announced or auto-assigned identities, one message each, then a send to every identity, default schedules. Abandoned-send family: a send to A is dropped while A's connection accepts nothing (once nothing else can happen, or after 1..2 (thorough 4) polls; short and 200 kB messages), then the connection recovers: later sends to A and B must succeed and arrive whole, in order, on exactly the addressed peer's wire. states = distinct observed outcomes; transitions = executions.");
+    ck.cov("explanation", "ROUTER socket with 1-3 raw peers whose identities are announced (1 byte / 255 bytes / each a proper prefix of the next / 255 bytes differing in the last byte only) or auto-assigned (no Identity property, or one of length 0), each sending 2 multipart messages (one starting with an empty frame); every schedule within the deviation bound over attach order, delivery order, yield points and deliveries landing inside pipe reads, from 3 default policies. Oracle: the first frame of every recv result is the identity returned by that connection's attach (the announced one when present, else a non-empty value carried by no other connection) and the remaining frames are the reference decode of what that peer wrote, per peer in order; then a send to each identity must appear, minus its first frame, on exactly that peer's wire and on no other; unknown identities must fail with no wire growing; a peer that has closed must not cause bytes on any other wire. Reconnect family: a peer with an announced identity leaves and a new connection announces the same identity while the application is not inside recv: the send for that identity must reach the new connection and nothing the stale one. Scale family (not exhaustive in n): 17 / 65 / 130 (thorough 257, 520) peers with announced or auto-assigned identities, one message each, then a send to every identity, default schedules. Freshness family: an anonymous peer is assigned X, a second peer announces a neighbour of X (last byte / last four bytes / first byte stepped by 1, 2, 3, -1, 16), a third anonymous peer joins: three different identities, routing separates them. Abandoned-send family: a send to A is dropped while A's connection accepts nothing (once nothing else can happen, or after 1..2 (thorough 4) polls; short and 200 kB messages), then the connection recovers: later sends to A and B must succeed and arrive whole, in order, on exactly the addressed peer's wire. states = distinct observed outcomes; transitions = executions.");
     ck.assume("single-frame ROUTER sends are outside the statement and not issued");
     ck.conclude()
 }
